@@ -104,6 +104,11 @@ func oracleC01(c *oracleCtx) {
 		c01Check(c, src, c01Cfgs(c, src, []string{"c", "cm", "p:2020:1", "p:09:0"}), false)
 		c.count(src)
 	}
+	// directed sources: escapes denoting the code points at the UTF-8 length boundaries (needed by seeded/C01-m3)
+	for _, src := range c01EscapeSources() {
+		c01Check(c, src, c01Cfgs(c, src, []string{"c", "p:2020:1"}), false)
+		c.count(src)
+	}
 	for _, in := range c.inputs {
 		if m := recordedInput(in); m != nil {
 			if s := oaStr(m, "src"); s != "" {
@@ -171,6 +176,41 @@ func c01SignSources() []string {
 	}
 	for _, rel := range []string{"<", ">", "<=", "=="} {
 		out = append(out, "let a = 7\nlet b = 3\nconsole.log(a "+rel+" !--b)\nconsole.log(a "+rel+" !- -b, b)\n")
+	}
+	return out
+}
+
+// c01EscapeSources: programs printing the code units of strings written with \x, \u and \u{} escapes at every
+// boundary of the UTF-8 encoding and of the surrogate range.
+func c01EscapeSources() []string {
+	cps := []int{0x00, 0x01, 0x1f, 0x20, 0x7e, 0x7f, 0x80, 0xff, 0x100, 0x7ff, 0x800, 0xfff, 0x1000, 0xd7ff, 0xe000, 0xfffd, 0xfffe, 0xffff,
+		0x10000, 0x10001, 0xffff0, 0x10ffff}
+	var out []string
+	var all []string
+	for _, cp := range cps {
+		var forms []string
+		if cp <= 0xff {
+			forms = append(forms, fmt.Sprintf("\\x%02x", cp))
+		}
+		if cp <= 0xffff {
+			forms = append(forms, fmt.Sprintf("\\u%04x", cp), fmt.Sprintf("\\u%04X", cp))
+		}
+		forms = append(forms, fmt.Sprintf("\\u{%x}", cp), fmt.Sprintf("\\u{%06X}", cp))
+		for _, f := range forms {
+			all = append(all, "\"a"+f+"b\"")
+		}
+	}
+	show := "function show(s) {\n  let r = []\n  for (let i = 0; i < s.length; i = i + 1) { r.push(s.charCodeAt(i)) }\n  console.log(r.join(\",\"))\n}\n"
+	for i := 0; i < len(all); i += 8 {
+		j := i + 8
+		if j > len(all) {
+			j = len(all)
+		}
+		src := show
+		for _, lit := range all[i:j] {
+			src += "show(" + lit + ")\n"
+		}
+		out = append(out, src)
 	}
 	return out
 }
